@@ -35,11 +35,13 @@ def confirm(d):
                 return suite(wt, tests)
             if os.path.exists(script):
                 sh("CARGO_NET_OFFLINE=true cargo build --offline --target-dir %s/target 2>&1" % wt, cwd=wt)
-                return sh("sh demo.sh %s/target/debug/ruschm" % wt, cwd=wt)
+                return sh("bash demo.sh %s/target/debug/ruschm" % wt, cwd=wt)
             return (None, ["no demo"])
         rc0, l0 = demo()
         res["demo_without_change"] = "pass" if rc0 == 0 else "FAIL"
         rc, out = sh(["git", "-C", wt, "apply", os.path.join(d, "patch.diff")])
+        if rc != 0:
+            rc, out = sh("patch -p1 -s --no-backup-if-mismatch -F3 < %s" % os.path.join(d, "patch.diff"), cwd=wt)
         res["patch_applies"] = rc == 0
         rc1, l1 = demo()
         res["demo_with_change"] = "fail" if rc1 != 0 else "PASS"
@@ -63,7 +65,12 @@ def detect(d, props):
         print("refusing: /repo/src has local changes"); return
     rc, out = sh(["git", "-C", "/repo", "apply", os.path.join(d, "patch.diff")])
     if rc != 0:
-        print("patch does not apply", out); return
+        # the tree has moved on since the change was written (a later fix: commit touched neighbouring lines): apply it as `patch`
+        # does, by context with a little fuzz
+        rc, out = sh("patch -p1 -s --no-backup-if-mismatch -F3 < %s" % os.path.join(d, "patch.diff"), cwd="/repo")
+        if rc != 0:
+            sh(["git", "-C", "/repo", "checkout", "--", "."])
+            print(json.dumps({p: {"exit": None, "lines": [], "what": "patch does not apply to the current tree"} for p in props})); return
     res = {}
     try:
         for p in props:
